@@ -91,7 +91,7 @@ static unsigned uv__utf8_decode1_slow(const char** p,
     }
     /* Fall through. */
   case 2:
-    if (a > 0xDF) {
+    if (a > 0xDF && a <= 0xEF) {
       min = 0x800;
       b = 0x80 | (a & 15);
       c = (unsigned char) *(*p)++;
@@ -101,7 +101,7 @@ static unsigned uv__utf8_decode1_slow(const char** p,
     }
     /* Fall through. */
   case 1:
-    if (a > 0xBF) {
+    if (a > 0xBF && a <= 0xDF) {
       min = 0x80;
       b = 0x80;
       c = 0x80 | (a & 31);
